@@ -40,3 +40,120 @@ def register(M):
       "            if l not in ready:\n                queue.append(l)\n            if r not in ready:\n                queue.append(r)",
       "harmless: dfs visits the right subtree first (a different but admissible children-first order)",
       ["tests/test_tree.py"], harmless=True)
+
+    # ---- widened monitors (getters / constructors / helpers that speak a path format) ----
+    M("M_C10_x1", ["C10"], "cotengra/core.py",
+      '        return ["einsum_path", *self.get_path(order=order)]',
+      '        return ["einsum_path", *self.get_path()]',
+      "get_numpy_path drops the order argument (numpy_path: does not follow traverse(order))", ["tests/test_tree.py"])
+    M("M_C10_x2", ["C10"], "cotengra/core.py",
+      "        tups = dict(zip(self.gen_leaves(), range(self.N)))\n\n        for parent, l, r in self.traverse(order=order):",
+      "        tups = dict(zip(self.gen_leaves(), range(1, self.N + 1)))\n\n        for parent, l, r in self.traverse(order=order):",
+      "flat_tree numbers the leaves from 1 (flat_tree)", ["tests/test_tree.py"])
+    M("M_C10_x3", ["C10"], "cotengra/core.py",
+      "            for nd in itertools.chain.from_iterable(self.traverse())\n            if len(nd) == 1",
+      "            for nd in itertools.chain.from_iterable(x[:2] for x in self.traverse())\n            if len(nd) == 1",
+      "get_leaves_ordered looks at (parent, left) only: leaves that are right children are lost (leaves_ordered)", ["tests/test_tree.py"])
+    M("M_C10_x4", ["C10"], "cotengra/core.py",
+      "        return self.get_ssa_path(order=self.surface_order)",
+      "        return self.get_ssa_path()",
+      "get_ssa_path_surface forgets the surface order (surface_paths: plain trees fall back to dfs)", ["tests/test_tree.py"])
+    M("M_C10_x5", ["C10"], "cotengra/core.py",
+      "        if (len(tree.children) < tree.N - 1) and autocomplete:",
+      "        if (len(tree.children) < tree.N - 2) and autocomplete:",
+      "ContractionTreeCompressed.from_path does not complete a path that lacks exactly one contraction (compressed_prefix)", ["tests/test_tree.py"])
+    M("M_C10_x6", ["C10"], "cotengra/core.py",
+      '        inputs = lhs.split(",")\n        return cls(inputs, output, size_dict, **kwargs)',
+      '        inputs = [t for t in lhs.split(",") if t]\n        return cls(inputs, output, size_dict, **kwargs)',
+      "from_eq drops scalar (empty) terms (from_eq)", ["tests/test_tree.py"])
+    M("M_C10_x7", ["C10"], "cotengra/core.py",
+      "        return inputs_output_to_eq(self.inputs, self.output)",
+      "        return inputs_output_to_eq(self.get_inputs_sliced(), self.output)",
+      "get_eq leaves the sliced indices out of the inputs although it documents the total equation (sliced_getters)", ["tests/test_tree.py"])
+    M("M_C10_x8", ["C10"], "cotengra/core.py",
+      "        return tuple(ix for ix in self.output if ix not in self.sliced_inds)",
+      "        return tuple(self.output)",
+      "get_output_sliced keeps sliced output indices (sliced_getters_output_index)", ["tests/test_tree.py"])
+    M("M_C10_x9", ["C10"], "cotengra/core.py",
+      "                self.size_dict[ix] for ix in term if ix not in self.sliced_inds\n",
+      "                self.size_dict[ix] for ix in term\n",
+      "get_shapes_sliced keeps the sliced dimensions (sliced_getters)", ["tests/test_tree.py"])
+    M("M_C10_x10", ["C10"], "cotengra/core.py",
+      "            size_dict=info.size_dict,\n            path=info.path,",
+      "            size_dict=info.size_dict,\n            ssa_path=info.path,",
+      "from_info hands the linear opt_einsum path over as an ssa path (from_info)", ["tests/test_tree.py"])
+    M("M_C10_x11", ["C10"], "cotengra/core.py",
+      "            edge_path=edge_path,\n            optimize=optimize,\n            autocomplete=autocomplete,\n",
+      "            edge_path=edge_path,\n            optimize=optimize,\n",
+      "from_edge_path does not pass autocomplete on (from_edge_path: autocomplete=False still completes)", ["tests/test_tree.py"])
+    M("M_C10_x12", ["C10"], "cotengra/core.py",
+      "            if len(self.info) > 2 * self.N - 1:",
+      "            if len(self.info) >= 2 * self.N - 1:",
+      "_add_node(check=True) is off by one: the last contraction of a valid complete path is refused (from_path_check)", ["tests/test_tree.py"])
+    M("M_C10_x13", ["C10"], "cotengra/pathfinders/path_basic.py",
+      "            if (nterms is not None) and (i >= nterms):",
+      "            if (nterms is not None) and (i > nterms):",
+      "harmless since repair 157dfec: the id == nterms shortcut is missed, but a valid ssa path never reuses an id, so the "
+      "repaired function still ends in True (was CAUGHT by is_ssa_true before the repair; M_C10_r1 validates is_ssa_true now)",
+      ["tests/test_paths_basic.py"], harmless=True)
+    M("M_C10_x14", ["C10"], "cotengra/pathfinders/path_basic.py",
+      "            if i in seen:\n                # id reused -> not ssa\n                return False",
+      "            if i in seen:\n                # id reused -> not ssa\n                return True",
+      "is_ssa_path answers the wrong way round when an id is reused: linear paths are called ssa (is_ssa_false)", ["tests/test_paths_basic.py"])
+    M("M_C10_x15", ["C10"], "cotengra/utils.py",
+      "            new_optimize = tuple(ind_map[ind] for ind in optimize)",
+      "            new_optimize = tuple(optimize)",
+      "canonicalize_inputs forgets to rename the indices of an edge path (iface_path_edge / iface_tree_edge)", ["tests/test_interface.py"])
+    M("M_C10_x16", ["C10"], "cotengra/interface.py",
+      "        return ContractionTree.from_path(\n            inputs, output, size_dict, path=optimize\n        )",
+      "        return ContractionTree.from_path(\n            inputs, output, size_dict, ssa_path=optimize\n        )",
+      "find_tree reads an explicit (linear) path as an ssa path (iface_tree_explicit)", ["tests/test_interface.py"])
+    M("M_C10_x17", ["C10"], "cotengra/interface.py",
+      "def _find_path_tree(inputs, output, size_dict, optimize, **kwargs):\n    return optimize.get_path()",
+      "def _find_path_tree(inputs, output, size_dict, optimize, **kwargs):\n    return optimize.get_ssa_path()",
+      "find_path returns the ssa path of a tree given as optimize (iface_path_tree)", ["tests/test_interface.py"])
+    M("M_C10_x18", ["C10"], "cotengra/interface.py",
+      "        optimize = edge_path_to_linear(optimize, inputs)\n\n    return optimize",
+      "        from .pathfinders.path_basic import edge_path_to_ssa\n\n        optimize = edge_path_to_ssa(optimize, inputs)\n\n    return optimize",
+      "find_path converts an explicit edge path to ssa instead of linear ids (iface_path_edge)", ["tests/test_interface.py"])
+    M("M_C10_x19", ["C10"], "cotengra/core.py",
+      "            tree.contract_nodes(nodes, **contract_opts)\n\n        return tree",
+      "            if autocomplete != \"auto\":\n                tree.contract_nodes(nodes, **contract_opts)\n\n        return tree",
+      "from_path(autocomplete='auto') only warns and leaves the tree incomplete (from_path_auto)", ["tests/test_tree.py"])
+    M("M_C10_x20", ["C10"], "cotengra/core.py",
+      "        return tuple(\n            tuple(self.size_dict[ix] for ix in term) for term in self.inputs\n        )",
+      "        return tuple(\n            tuple(self.size_dict[ix] for ix in term) for term in self.get_inputs_sliced()\n        )",
+      "get_shapes (all indices) computed from the sliced inputs (sliced_getters)", ["tests/test_tree.py"])
+    M("M_C10_x21", ["C10"], "cotengra/core.py",
+      "        si = tree.sliced_inds.pop(ind)\n",
+      "        si = tree.sliced_inds[ind]\n",
+      "restore_ind leaves the index registered as sliced: the *_sliced getters still leave it out (restored_getters)", ["tests/test_tree.py"])
+    M("M_C10_x22", ["C10"], "cotengra/utils.py",
+      "    if rhs:\n        output = tuple(rhs[0])\n",
+      "    if rhs:\n        output = tuple(sorted(rhs[0]))\n",
+      "eq_to_inputs_output sorts an explicitly given output (eq_roundtrip)", ["tests/test_interface.py"])
+    M("M_C10_x23", ["C10"], "cotengra/interface.py",
+      "    if optimize and isinstance(optimize[0], (str, int)):\n        from .pathfinders.path_basic import edge_path_to_linear",
+      "    if optimize and isinstance(optimize[0], (str, int, list)):\n        from .pathfinders.path_basic import edge_path_to_linear",
+      "find_path takes an explicit path given as a list of lists for an edge path (iface_path_explicit)", ["tests/test_interface.py"])
+    M("M_C10_x24", ["C10"], "cotengra/core.py",
+      "                tree._remove_node(p)\n                tree.contract_nodes_pair(l, r)\n",
+      "                tree._remove_node(p)\n",
+      "restore_ind removes the dependent intermediates and forgets to add them again: the paths lose nodes (sliced_paths)", ["tests/test_tree.py"])
+    M("M_C10_x25", ["C10"], "cotengra/utils.py",
+      "    return f\"{','.join(map(''.join, inputs))}->{''.join(output)}\"",
+      "    return f\"{','.join(filter(None, map(''.join, inputs)))}->{''.join(output)}\"",
+      "inputs_output_to_eq leaves scalar terms out of the equation (eq_getters: get_eq of an unsliced tree)", ["tests/test_interface.py"])
+    # ---- reverts of the repairs of FINDINGS_widen-a.md #1-#3 (the classes are generated again) ----
+    M("M_C10_r1", ["C10"], "cotengra/pathfinders/path_basic.py",
+      "            if i in seen:\n                # id reused -> not ssa\n                return False\n            seen.add(i)\n    # no id was ever reused\n    return True\n",
+      "            seen.add(i)\n            if i in seen:\n                # id reused -> not ssa\n                return False\n",
+      "revert 157dfec: is_ssa_path records the id before testing for reuse - every ssa path whose last step starts with an input id is called not-ssa (is_ssa_true / is_ssa_true_input_id_first)", ["tests/test_paths_basic.py"])
+    M("M_C10_r2", ["C10"], "cotengra/utils.py",
+      "    return (\n        isinstance(optimize, (list, tuple))\n        and len(optimize) > 0\n        and isinstance(optimize[0], (int, str))\n    )",
+      "    return isinstance(optimize, (list, tuple)) and isinstance(\n        optimize[0], (int, str)\n    )",
+      "revert f2a0970: is_edge_path indexes an empty explicit path - IndexError under canonicalize=True (iface_empty_path_canonicalize)", ["tests/test_interface.py"])
+    M("M_C10_r3", ["C10"], "cotengra/core.py",
+      "            ssa_path = linear_to_ssa(path, len(inputs))",
+      "            ssa_path = linear_to_ssa(path)",
+      "revert b769cc4: ContractionTreeCompressed.from_path guesses the number of tensors of an incomplete linear path (compressed_prefix_linear)", ["tests/test_tree.py"])
